@@ -11,6 +11,10 @@
 //               with tests that run in the parent process, IGNORE_TEST shells and TestRegistry::setRunIgnored(); 2 the command
 //               line: CommandLineTestRunner with "-p" and a decoded subset of -ri, -r2/-r3/-r (repetitions), -v, -f (crash on
 //               fail: a failed check aborts the child), -e (do not rethrow unexpected exceptions).
+//               Route 3: the test list is built by a decoded script: each test enters by TestRegistry::addTest, by a
+//               TestInstaller into the current registry, as an OrderedTestShell through OrderedTestInstaller (decoded level),
+//               or by addTest + unDoLastAddTest + addTest; setRunTestsInSeperateProcess() is called before the first, between
+//               two, or after the last entry; then up to three of reverseTests / shuffleTests(seed) / unDoLastAddTest + re-add.
 //   odd         part (b): PlatformSpecificFork / PlatformSpecificWaitPid are stubs replaying a decoded outcome script per
 //               test: fork error, or segments "EINTR x L (0..40 or endless), then one of exited k / signalled s /
 //               stopped s / continued / error(errno)".  No process is created; the stub returns the harness's own pid.
@@ -22,6 +26,7 @@
 //         self-check, signature prefix C11:harness-).
 #include "common.h"
 #include "CppUTest/CommandLineTestRunner.h"
+#include "CppUTestExt/OrderedTest.h"
 #include <algorithm>
 #include <stdexcept>
 #include <errno.h>
@@ -64,9 +69,13 @@ SigClass sig_class(int s) {
 }
 
 struct Act { int phase, kind, var, arg; };
-struct RealTest { Act acts[MAXA]; int nact; int eintr[2]; bool ignored, flag; };   // ignored: IGNORE_TEST shell; flag: setRunInSeperateProcess() on this shell
-enum { ROUTE_REGISTRY = 0, ROUTE_PER_TEST, ROUTE_COMMAND_LINE };
-struct ProgOpts { int route; bool reg_flag, run_ignored; int repeat, repeat_sel; bool verbose, crash_on_fail, rethrow; };
+struct RealTest { Act acts[MAXA]; int nact; int eintr[2]; bool ignored, flag; int entry, level; };   // ignored: IGNORE_TEST shell; flag: setRunInSeperateProcess() on this shell
+enum { ROUTE_REGISTRY = 0, ROUTE_PER_TEST, ROUTE_COMMAND_LINE, ROUTE_BUILD_SCRIPT };
+enum { ENTER_ADDTEST = 0, ENTER_INSTALLER, ENTER_ORDERED, ENTER_ADD_UNDO_ADD };
+const char* const ENTRY[4] = {"addTest", "TestInstaller", "OrderedTestInstaller", "addTest+unDoLastAddTest+addTest"};
+enum { OP_REVERSE = 1, OP_SHUFFLE, OP_UNDO_READD };
+struct ProgOpts { int route; bool reg_flag, run_ignored; int repeat, repeat_sel; bool verbose, crash_on_fail, rethrow;
+                  int enable_at; int nops; int ops[3]; int op_seed[3]; };   // enable_at: number of tests that have entered the list when the mode is switched on
 ProgOpts g_opt;
 bool test_runs(const RealTest& rt) { return !rt.ignored || g_opt.run_ignored; }
 bool test_separate(const RealTest& rt) { return g_opt.reg_flag || rt.flag; }
@@ -209,6 +218,18 @@ public:
     }
 };
 typedef C11ShellT<UtestShell> C11Shell;
+class C11OrderedShell : public OrderedTestShell {     // OrderedTestShell has a default constructor only; the installer names it
+public:
+    int t_;
+    explicit C11OrderedShell(int t) : t_(t) {}
+    Utest* createTest() CPPUTEST_OVERRIDE { return new C11Test(t_, this); }
+    void destroyTest(Utest* u) CPPUTEST_OVERRIDE { delete u; }
+    void runOneTest(TestPlugin* p, TestResult& r) CPPUTEST_OVERRIDE {
+        try { OrderedTestShell::runOneTest(p, r); }
+        catch (...) { if (g_in_child) _exit(GUARD_THROW); throw; }
+        if (g_in_child) _exit(GUARD_RET);
+    }
+};
 typedef C11ShellT<IgnoredUtestShell> C11IgnoredShell;
 class C11Plugin : public TestPlugin {
 public:
@@ -461,7 +482,8 @@ std::string failure_routes(const RealTest& rt, const Expect& e) {
 }
 std::string real_str(const RealTest& rt) {
     std::string s = "[";
-    if (g_opt.route != ROUTE_REGISTRY) s += sfmt("%s%s ", rt.ignored ? "IGNORE_TEST" : "TEST", rt.flag ? "+separate-flag" : "");
+    if (g_opt.route == ROUTE_BUILD_SCRIPT) s += rt.entry == ENTER_ORDERED ? sfmt("via %s level %d: ", ENTRY[rt.entry], rt.level) : sfmt("via %s: ", ENTRY[rt.entry]);
+    else if (g_opt.route != ROUTE_REGISTRY) s += sfmt("%s%s ", rt.ignored ? "IGNORE_TEST" : "TEST", rt.flag ? "+separate-flag" : "");
     for (int i = 0; i < rt.nact; i++) { if (i) s += "; "; s += act_str(rt.acts[i]); }
     if (rt.eintr[0] || rt.eintr[1]) s += sfmt(" | EINTR x%d before the 1st wait, x%d before the 2nd", rt.eintr[0], rt.eintr[1]);
     return s + "]";
@@ -511,7 +533,48 @@ struct Program {
     bool parent_exception;
     int runner_rc;
     std::string args;
-    explicit Program(int n) : parent_exception(false), runner_rc(-1) {
+    std::vector<int> order;          // the tests as they are linked in the registry when the run starts
+    bool list_ok;
+    void enter(int t) {
+        UtestShell* sh;
+        switch (g_real[t].entry) {
+        default: sh = new C11Shell(t); registry.addTest(sh); break;
+        case ENTER_INSTALLER: { sh = new C11Shell(t); TestInstaller inst(*sh, "c11", TNAME[t], "c11_file.cpp", (size_t)(100 + t)); break; }
+        case ENTER_ORDERED: { C11OrderedShell* o = new C11OrderedShell(t); sh = o;
+                              OrderedTestInstaller inst(*o, "c11", TNAME[t], "c11_file.cpp", (size_t)(100 + t), g_real[t].level); break; }
+        case ENTER_ADD_UNDO_ADD: sh = new C11Shell(t); registry.addTest(sh); registry.unDoLastAddTest(); registry.addTest(sh); break;
+        }
+        shells.push_back(sh);
+    }
+    void build_by_script(int n) {
+        registry.setCurrentRegistry(&registry);                // TestInstaller and OrderedTestInstaller work on the current registry
+        OrderedTestShell::setOrderedTestHead(NULLPTR);
+        registry.installPlugin(&plugin);
+        for (int t = 0; t <= n; t++) {
+            if (t == g_opt.enable_at) registry.setRunTestsInSeperateProcess();
+            if (t < n) enter(t);
+        }
+        for (int k = 0; k < g_opt.nops; k++) {
+            if (g_opt.ops[k] == OP_REVERSE) registry.reverseTests();
+            else if (g_opt.ops[k] == OP_SHUFFLE) registry.shuffleTests((size_t)g_opt.op_seed[k]);
+            else if (g_opt.ops[k] == OP_UNDO_READD) { UtestShell* first = registry.getFirstTest(); if (first) { registry.unDoLastAddTest(); registry.addTest(first); } }
+        }
+        OrderedTestShell::setOrderedTestHead(NULLPTR);
+        registry.setCurrentRegistry(NULLPTR);
+    }
+    void read_order(int n) {
+        std::vector<int> seen((size_t)n, 0);
+        list_ok = true;
+        int guard = 0;
+        for (UtestShell* u = registry.getFirstTest(); u && guard < 4 * MAXT; u = u->getNext(), guard++) {
+            int t = index_of(*u);
+            if (t < 0 || t >= n || seen[(size_t)t]) { list_ok = false; break; }
+            seen[(size_t)t] = 1; order.push_back(t);
+        }
+        if ((int)order.size() != n) list_ok = false;
+    }
+    explicit Program(int n) : parent_exception(false), runner_rc(-1), list_ok(true) {
+        if (g_opt.route == ROUTE_BUILD_SCRIPT) { build_by_script(n); read_order(n); return; }
         for (int t = 0; t < n; t++) {
             UtestShell* sh = g_real[t].ignored ? static_cast<UtestShell*>(new C11IgnoredShell(t)) : static_cast<UtestShell*>(new C11Shell(t));
             if (g_opt.route == ROUTE_PER_TEST && g_real[t].flag) sh->setRunInSeperateProcess();
@@ -523,6 +586,7 @@ struct Program {
             if (g_opt.reg_flag) registry.setRunTestsInSeperateProcess();
             if (g_opt.run_ignored) registry.setRunIgnored();
         }
+        read_order(n);
     }
     ~Program() { for (size_t i = 0; i < shells.size(); i++) delete shells[i]; }
     void run() {
@@ -571,7 +635,7 @@ int check_totals(const Program& p, int ntests, int tests_run, int tests_ignored)
                 "C11:later-test-not-run", "repetition %d: %d tests registered, %d to run, %d ignored; started %zu, ended %zu, run count %zu, test count %zu, ignored count %zu, finished %d",
                 rep, ntests, tests_run, tests_ignored, r.started.size(), r.ended, r.runs, r.tests, r.ignored, (int)r.finished);
         for (int t = 0; t < ntests; t++)
-            V_CHECK(r.started[(size_t)t] == TNAME[t], "C11:later-test-not-run", "repetition %d: test #%d started is %s, expected %s", rep, t, r.started[(size_t)t].c_str(), TNAME[t]);
+            V_CHECK(r.started[(size_t)t] == TNAME[p.order[(size_t)t]], "C11:later-test-not-run", "repetition %d: test #%d started is %s, the list has %s there", rep, t, r.started[(size_t)t].c_str(), TNAME[p.order[(size_t)t]]);
         for (size_t i = 0; i < r.recs.size(); i++) {
             bool ok = false;
             for (int t = 0; t < ntests; t++) if (r.recs[i].test == TNAME[t]) ok = true;
@@ -624,17 +688,23 @@ int run_real_program(int ntests, bool& nontrivial) {
     reset_program_state();
     g_ntests = ntests;
     int tests_run = 0, tests_ignored = 0;
-    g_plan_n = 0;
-    for (int rep = 0; rep < g_opt.repeat; rep++)
-        for (int t = 0; t < ntests; t++)
-            if (test_runs(g_real[t]) && test_separate(g_real[t])) {
-                g_eintr_left[g_plan_n][0] = g_real[t].eintr[0]; g_eintr_left[g_plan_n][1] = g_real[t].eintr[1];
-                g_plan[g_plan_n++] = t;
-            }
     for (int t = 0; t < ntests; t++) { if (test_runs(g_real[t])) tests_run++; else tests_ignored++; }
     int rc = 0;
     {
         Program p(ntests);
+        if (!p.list_ok) {     // the list the library linked is not a permutation of the tests: order and linking are C02's subject
+            rc = verif::fail("C11:harness-test-list", "the registry's list does not contain every test exactly once after the build script (%zu of %d)", p.order.size(), ntests);
+            return rc;
+        }
+        g_plan_n = 0;
+        for (int rep = 0; rep < g_opt.repeat; rep++)
+            for (int i = 0; i < ntests; i++) {
+                int t = p.order[(size_t)i];
+                if (test_runs(g_real[t]) && test_separate(g_real[t])) {
+                    g_eintr_left[g_plan_n][0] = g_real[t].eintr[0]; g_eintr_left[g_plan_n][1] = g_real[t].eintr[1];
+                    g_plan[g_plan_n++] = t;
+                }
+            }
         PlatformSpecificFork = real_fork_seam;
         PlatformSpecificWaitPid = real_waitpid_seam;
         p.run();
@@ -647,7 +717,8 @@ int run_real_program(int ntests, bool& nontrivial) {
             if (int r = check_totals(p, ntests, tests_run, tests_ignored)) return r;
             int f = 0;    // ordinal of the child
             for (int rep = 0; rep < g_opt.repeat; rep++)
-            for (int t = 0; t < ntests; t++) {
+            for (int i = 0; i < ntests; i++) {
+                const int t = p.order[(size_t)i];
                 const RealTest& rt = g_real[t];
                 std::vector<Tok> got = p.toks_of(rep, t);
                 std::string ctx = sfmt("%s%st%d %s", p.args.c_str(), g_opt.repeat > 1 ? sfmt("repetition %d ", rep).c_str() : "", t, real_str(rt).c_str());
@@ -692,7 +763,12 @@ int run_real_program(int ntests, bool& nontrivial) {
                     e = model_child(rt, false, false);
                 }
                 // harness self-check: the child did what the model says (else the case is an artefact, not a verdict)
-                V_CHECK(stops_seen >= e.stops && stops_seen <= e.stops + e.maybe, "C11:harness-child-stop-count",
+                // fewer stop reports than SIGSTOPs the child raised: a stop was cancelled before the parent waited for it, which only a
+                // SIGCONT that no stop report called for can do (the child never continues itself) -> the stop event is lost for the parent
+                V_CHECK(stops_seen >= e.stops, "C11:records-for-stopped-child",
+                        "%s: the child stopped itself %d time(s) with SIGSTOP but only %d stop(s) were ever reported to the waiting parent (a stop was cancelled by a SIGCONT sent without a stop report); parent recorded %s",
+                        ctx.c_str(), e.stops, stops_seen, toks_str(got).c_str());
+                V_CHECK(stops_seen <= e.stops + e.maybe, "C11:harness-child-stop-count",
                         "%s: kernel reported %d stops, model expects %d..%d", ctx.c_str(), stops_seen, e.stops, e.stops + e.maybe);
                 for (int ph = 0; ph < NPHASE; ph++)
                     V_CHECK(g_sh->reached[t][ph] == e.reach[ph], "C11:child-progress", "%s: point '%s' %s in the child, model says %s",
@@ -829,7 +905,10 @@ void decode_real(Reader& r, int ntests, std::string& desc) {
         case 2: { int total = 1 + (int)r.below(EINTR_TOLERATED); rt.eintr[0] = (int)r.below((uint32_t)total + 1); rt.eintr[1] = total - rt.eintr[0]; break; }
         case 3: rt.eintr[1] = 1 + (int)r.below(EINTR_TOLERATED); break;
         }
-        if (g_opt.route != ROUTE_REGISTRY) {      // one more byte per test, only on the new routes (old inputs keep their layout)
+        if (g_opt.route == ROUTE_BUILD_SCRIPT) {
+            rt.entry = (int)r.below(4);
+            if (rt.entry == ENTER_ORDERED) rt.level = (int)r.below(8);
+        } else if (g_opt.route != ROUTE_REGISTRY) {      // one more byte per test, only on the new routes (old inputs keep their layout)
             uint32_t shape = r.below(4);
             rt.ignored = shape >= 2;
             rt.flag = g_opt.route == ROUTE_PER_TEST && (shape == 0 || shape == 2);
@@ -849,12 +928,16 @@ void decode_real(Reader& r, int ntests, std::string& desc) {
 }
 
 // how the separate-process flag reaches the tests (bits 1-2 of the first byte) and the program-level switches
-void decode_opts(Reader& r, uint8_t m, std::string& desc) {
+void decode_opts(Reader& r, uint8_t m, int ntests, std::string& desc) {
     default_opts();
     int route = (m >> 1) & 3;
-    if (route == 3) route = ROUTE_REGISTRY;
     g_opt.route = route;
     if (route == ROUTE_REGISTRY) return;
+    if (route == ROUTE_BUILD_SCRIPT) {
+        g_opt.enable_at = (int)r.below((uint32_t)ntests + 1);          // 0: before any test is in the list
+        desc += sfmt(" {list built by script; mode switched on after %d of %d tests entered", g_opt.enable_at, ntests);
+        return;                                                        // the operations follow the tests (decode_ops)
+    }
     uint8_t P = r.u8();
     if (route == ROUTE_PER_TEST) {
         g_opt.reg_flag = (P & 1) != 0; g_opt.run_ignored = (P & 2) != 0;
@@ -871,8 +954,26 @@ void decode_opts(Reader& r, uint8_t m, std::string& desc) {
     }
 }
 
+void decode_ops(Reader& r, std::string& desc) {
+    if (g_opt.route != ROUTE_BUILD_SCRIPT) return;
+    g_opt.nops = (int)r.below(4);
+    desc += "; then";
+    for (int k = 0; k < g_opt.nops; k++) {
+        g_opt.ops[k] = 1 + (int)r.below(3);
+        if (g_opt.ops[k] == OP_SHUFFLE) { g_opt.op_seed[k] = 1 + (int)r.u8(); desc += sfmt(" shuffleTests(%d)", g_opt.op_seed[k]); }
+        else desc += g_opt.ops[k] == OP_REVERSE ? " reverseTests" : " unDoLastAddTest+re-add";
+    }
+    desc += g_opt.nops ? "}" : " run}";
+}
+
 void classes_real(int ntests) {
-    verif::cls(g_opt.route == ROUTE_REGISTRY ? "a:route-registry-flag" : g_opt.route == ROUTE_PER_TEST ? "a:route-flag-on-single-tests" : "a:route-command-line-p");
+    verif::cls(g_opt.route == ROUTE_REGISTRY ? "a:route-registry-flag" : g_opt.route == ROUTE_PER_TEST ? "a:route-flag-on-single-tests" :
+               g_opt.route == ROUTE_COMMAND_LINE ? "a:route-command-line-p" : "a:route-list-built-by-script");
+    if (g_opt.route == ROUTE_BUILD_SCRIPT) {
+        verif::cls(g_opt.enable_at == 0 ? "a:mode-on-before-any-test-entered" : g_opt.enable_at >= ntests ? "a:mode-on-after-all-tests-entered" : "a:mode-on-between-two-entries");
+        for (int t = 0; t < ntests; t++) verif::cls(sfmt("a:enters-by-%s%s", ENTRY[g_real[t].entry], t >= g_opt.enable_at ? "-with-mode-on" : "").c_str());
+        for (int k = 0; k < g_opt.nops; k++) verif::cls(g_opt.ops[k] == OP_REVERSE ? "a:op-reverseTests" : g_opt.ops[k] == OP_SHUFFLE ? "a:op-shuffleTests" : "a:op-unDoLastAddTest+re-add");
+    }
     if (g_opt.route == ROUTE_PER_TEST && g_opt.reg_flag) verif::cls("a:route-flag-on-single-tests+registry-flag");
     if (g_opt.run_ignored) verif::cls("a:run-ignored");
     if (g_opt.route == ROUTE_COMMAND_LINE) {
@@ -895,7 +996,7 @@ void classes_real(int ntests) {
             }
         }
         if (rt.nact == 2) verif::cls("a:two-actions");
-        if (g_opt.route != ROUTE_REGISTRY)
+        if (g_opt.route == ROUTE_PER_TEST || g_opt.route == ROUTE_COMMAND_LINE)
             verif::cls(!test_runs(rt) ? "a:test-ignored-not-run" : test_inproc(rt) ? (rt.ignored ? "a:test-run-ignored-in-parent-process" : "a:test-in-parent-process")
                                       : (rt.ignored ? "a:test-run-ignored-in-child" : "a:test-in-child"));
         if (rt.eintr[0]) verif::cls("a:eintr-before-first-status");
@@ -987,8 +1088,9 @@ extern "C" int verif_case(const uint8_t* data, size_t size) {
         int ntests = 1 + (int)(n % MAXT);
         if ((m & 1) == 0) {
             desc = "real:";
-            decode_opts(r, m, desc);
+            decode_opts(r, m, ntests, desc);
             decode_real(r, ntests, desc);
+            decode_ops(r, desc);
             classes_real(ntests);
             verif::cls("a:programs");
             if (verif::g_explain) fprintf(stderr, "%s\n", desc.c_str());
